@@ -1,7 +1,7 @@
 (* C02 -- the Verilog reader yields the circuit the netlist denotes.  Statements only; proofs in Proofs/VerilogProofs.v. *)
 From CG Require Import Verilog.ExprParse.
 From stdpp Require Import strings gmap sets.
-From CG Require Import Types Sem Api Gen.Gen_grammar Verilog.Ast Verilog.Read Verilog.Write Proofs.VerilogProofs Run.Run_C02 Proofs.VerilogReadProofs Proofs.VerilogDenoteProofs Proofs.VerilogBbProofs Proofs.VerilogConvProofs Proofs.VerilogRtProofs Proofs.VerilogSuccProofs.
+From CG Require Import Types Sem Api Gen.Gen_grammar Verilog.Ast Verilog.Read Verilog.Write Proofs.VerilogProofs Run.Run_C02 Proofs.VerilogReadProofs Proofs.VerilogDenoteProofs Proofs.VerilogBbProofs Proofs.VerilogConvProofs Proofs.VerilogRtProofs Proofs.VerilogSuccProofs Proofs.VerilogPinProofs.
 Open Scope string_scope.
 
 (* (1) obligation on the regenerated rule table of verilog.lark (expression .. primary, named_port_connection,
@@ -159,11 +159,25 @@ Theorem C02_read_denotes_full_bbfree : ∀ rsv bbs m,
 Proof. exact read_denotes_full_bbfree. Qed.
 Print Assumptions C02_read_denotes_full_bbfree.
 
-(* full statement for whole modules; what the theorems above do not cover: for modules WITH blackbox instances (a) *success* of the
-   read (as stated here it also lacks the identifier guard names_ok / outs_driven of (7), and a synthetic name may equal a pin
-   name: a dotted net `x.q` next to an instance `not_x`), (b) the registry and (c) every pin on its net (bb_ok).  (a)-(c) are
-   decided per generated module by Run_C02.holds (which evaluates the same guard in_subset and the executable form `denotes`
-   of the conclusion); see docs/C02-handover.md *)
+(* (9) blackbox instances: for every successful read of a module of the subset the registry is the list of instances of the
+   text and every instance is attached as the statement says (bb_ok: every input pin is a bb_input node whose fan-in is the net -
+   or the node of the expression - named in the instantiation, empty for `.p()` and omitted pins; every output pin is a
+   bb_output node without fan-in whose only reader is the net named in the instantiation, which is a buffer of exactly that pin).
+   Proof (Proofs/VerilogPinProofs.v): the graph after one instance node by node (bb_instance_shape), later statements leave the
+   pins and output nets of earlier instances alone (chg: connect() refuses pin-typed operands on non-buffers; results of
+   expressions are nets, constants or fresh nodes), invariant Qinv over the item fold, module(). *)
+Theorem C02_read_bb_pins : ∀ rsv bbs m C,
+  in_subset bbs m = true → list_to_set (module_ids m) ⊆ rsv → read rsv bbs m = Ok C →
+  c_bbs C = list_to_map ((λ x, (x.1.1, x.1.2)) <$> bb_insts bbs m) ∧ ∀ x, x ∈ bb_insts bbs m → bb_ok (c_g C) x = true.
+Proof. exact read_bb_pins. Qed.
+Print Assumptions C02_read_bb_pins.
+
+(* full statement for whole modules.  Every conjunct of its conclusion is proved for every *successful* read (C02_read_denotes,
+   C02_read_bb_pins); success itself is proved for blackbox-free modules under the identifier guard of (7)
+   (C02_read_denotes_full_bbfree).  Not proved: success of the read for modules WITH blackbox instances - as stated here it
+   lacks the identifier guard names_ok / outs_driven of (7), and a synthetic gate name may equal a pin name (a dotted net `x.q`
+   next to an instance `not_x`), in which case add_blackbox raises.  Success is decided per generated module by Run_C02.holds
+   (which evaluates the same guard in_subset and the executable form `denotes` of the conclusion); see docs/C02-handover.md *)
 Definition C02_read_denotes_full : Prop := ∀ rsv bbs m,
   ports_match m = true → in_subset bbs m = true → list_to_set (module_ids m) ⊆ rsv →
   ∃ C, read rsv bbs m = Ok C ∧ c_name C = m_name m ∧
